@@ -1,4 +1,5 @@
 import Norad.Props.C11
+import Norad.Props.Small
 #print axioms C11.accepts_iff_legal
 #print axioms C11.legalB_iff_legal
 #print axioms C11.accepts_eq_legalB
@@ -12,3 +13,8 @@ import Norad.Props.C11
 #print axioms C11.source_wrap_eq_model
 #print axioms C11.source_endPath_eq_model
 #print axioms C11.source_accepts_iff_legal
+#print axioms Small.name_predicates_agree
+#print axioms Small.dedup_mem
+#print axioms Small.dedup_nodup
+#print axioms Small.dedup_head
+#print axioms Small.dedup_of_nodup
